@@ -266,20 +266,15 @@ func tamperOnce(c *vh.Ctx, cb combo, certs testCerts, key string, in map[string]
 	data := make([]byte, n)
 	c.Rng.Read(data)
 	p.srec.take()
+	at, trunc := c.Rng.Intn(n), t%3 == 2 // every record is at least as long as its plaintext, so this offset exists
+	if t%3 == 1 {
+		at = c.Rng.Intn(5) // the first record header
+	}
 	tc.mu.Lock()
+	tc.at, tc.truncate, tc.mask = at, trunc, 1<<uint(c.Rng.Intn(8))
 	tc.armed, tc.pos, tc.done = true, 0, false
-	tc.truncate = t%3 == 2
-	tc.mask = 1 << uint(c.Rng.Intn(8))
 	tc.mu.Unlock()
 	go func() { p.server.Write(data); p.server.Close() }()
-	// decide the position once the size of the ciphertext is known: use an upper bound from the plaintext size
-	tc.mu.Lock()
-	tc.at = c.Rng.Intn(n) // every record is at least as long as its plaintext, so this offset exists
-	if t%3 == 1 {
-		tc.at = c.Rng.Intn(5) // the first record header
-	}
-	at, trunc := tc.at, tc.truncate
-	tc.mu.Unlock()
 	var got []byte
 	var rerr error
 	buf := make([]byte, 4096)
